@@ -150,7 +150,7 @@ Lemma sampling_of_spec w1 w2 m dw : sampling_of w1 w2 m = Ok dw ->
   | SMin => is_min_of (diffs w1 ++ diffs w2) dw
   | SLeft => is_min_of (diffs w1) dw
   | SRight => is_min_of (diffs w2) dw
-  | SNum d => dw = d /\ 0 < d
+  | SNum d => dw = d /\ d <> 0
   end.
 Proof. destruct m; simpl.
   - destruct (lmin (diffs w1)) as [d1|] eqn:E1; simpl; [|discriminate].
@@ -162,13 +162,21 @@ Proof. destruct m; simpl.
       * eapply Qcle_trans; [apply qmin_le_r|auto].
   - intros E. apply lmin_spec in E. exact E.
   - intros E. apply lmin_spec in E. exact E.
-  - destruct (qltb 0 d) eqn:E; [|discriminate]. intros H; injection H as <-. split; auto. apply qltb_iff, E. Qed.
-Lemma sampling_of_pos w1 w2 m dw : incr w1 -> incr w2 -> sampling_of w1 w2 m = Ok dw -> 0 < dw.
-Proof. intros H1 H2 E. apply sampling_of_spec in E. destruct m.
+  - destruct (qc_is0 d) eqn:E; [discriminate|]. intros H; injection H as <-. split; auto.
+    intros Z. subst d. discriminate E. Qed.
+(* the documented numeric sampling is a positive number *)
+Definition pos_sampling (m : sampling) : Prop := match m with SNum d => 0 < d | _ => True end.
+Lemma sampling_of_pos w1 w2 m dw : incr w1 -> incr w2 -> pos_sampling m -> sampling_of w1 w2 m = Ok dw -> 0 < dw.
+Proof. intros H1 H2 Hp E. apply sampling_of_spec in E. destruct m.
   - destruct E as [E _]. apply in_app_or in E. destruct E; eauto using diffs_pos.
   - destruct E as [E _]; eauto using diffs_pos.
   - destruct E as [E _]; eauto using diffs_pos.
-  - destruct E as [-> E]; auto. Qed.
+  - destruct E as [-> E]; exact Hp. Qed.
+Lemma qc_is0_true x : qc_is0 x = true <-> x = 0.
+Proof. split.
+  - intros H. apply Qc_is_canon. destruct x as [[n d] c]. unfold qc_is0 in H. simpl in H. destruct n; try discriminate.
+    reflexivity.
+  - intros ->. reflexivity. Qed.
 
 (* ------------------------------------------------------------------ (a) linspace and ceil *)
 Lemma this_zq z : (this (zq z) == inject_Z z)%Q.
@@ -322,7 +330,7 @@ Lemma union_range w1 w2 : incr w1 -> incr w2 -> qmin (wmin w1) (wmin w2) <= qmax
 Proof. intros H1 H2. apply Qcle_trans with (wmin w1). apply qmin_le_l.
   apply Qcle_trans with (wmax w1). apply incr_wmin_le_wmax, H1. apply qmax_ge_l. Qed.
 
-Lemma common_grid_spec w1 w2 m grid : incr w1 -> incr w2 -> common_grid w1 w2 m = Ok grid ->
+Lemma common_grid_spec w1 w2 m grid : incr w1 -> incr w2 -> pos_sampling m -> common_grid w1 w2 m = Ok grid ->
   let mn := qmin (wmin w1) (wmin w2) in let mx := qmax (wmax w1) (wmax w2) in
   exists dw num,
     sampling_of w1 w2 m = Ok dw /\ 0 < dw /\ num = qceil ((mx - mn) / dw) /\ (0 <= num)%Z /\
@@ -330,9 +338,10 @@ Lemma common_grid_spec w1 w2 m grid : incr w1 -> incr w2 -> common_grid w1 w2 m 
     length grid = Z.to_nat (num + 1) /\
     (forall i, (i <= Z.to_nat num)%nat -> nth i grid 0 = mn + zq (Z.of_nat i) * ((mx - mn) / zq num)) /\
     wmin grid = mn /\ wmax grid = mx /\ ((0 < num)%Z -> (mx - mn) / zq num <= dw).
-Proof. intros H1 H2 E mn mx. unfold common_grid in E. fold mn mx in E.
-  destruct (sampling_of w1 w2 m) as [dw|] eqn:Es; simpl in E; [|discriminate]. injection E as <-.
-  pose proof (sampling_of_pos _ _ _ _ H1 H2 Es) as Hd.
+Proof. intros H1 H2 Hp E mn mx. unfold common_grid in E. fold mn mx in E.
+  destruct (sampling_of w1 w2 m) as [dw|] eqn:Es; simpl in E; [|discriminate].
+  destruct (qceil ((mx - mn) / dw) + 1 <? 0)%Z; [discriminate|]. injection E as <-.
+  pose proof (sampling_of_pos _ _ _ _ H1 H2 Hp Es) as Hd.
   assert (Hr : 0 <= mx - mn). { pose proof (union_range w1 w2 H1 H2). fold mn mx in H. qc2q; lra. }
   pose proof (qdiv_nonneg _ _ Hr Hd) as Hq.
   pose proof (qceil_nonneg _ Hq) as Hn. destruct (qceil_spec ((mx - mn) / dw)) as [C1 C2].
@@ -348,7 +357,7 @@ Proof. intros H1 H2 E mn mx. unfold common_grid in E. fold mn mx in E.
       assert (Z : (mx - mn) / dw = 0) by (apply Qcle_antisym; auto).
       apply qdiv_zero in Z; auto. qc2q; lra.
     + apply linspace_last; lia.
-  - intros Hp. apply step_le_sampling; auto. Qed.
+  - intros Hnp. apply step_le_sampling; auto. Qed.
 
 (* ------------------------------------------------------------------ (b) pointwise theorem for the core *)
 Lemma core_pointwise o w1 v1 w2 v2 m f grid vals :
@@ -445,8 +454,13 @@ Lemma sampling_of_scale w1 w2 m :
   sampling_of (map sc w1) (map sc w2) (scale_sampling c m) = rscale (sampling_of w1 w2 m).
 Proof. destruct m; simpl; rewrite ?diffs_scale, ?lmin_scale; auto.
   - destruct (lmin (diffs w1)); simpl; auto. destruct (lmin (diffs w2)); simpl; auto. now rewrite qmin_scale.
-  - replace (qltb 0 (d * c)) with (qltb (0 * c) (d * c)) by (f_equal; ring). rewrite qltb_scale.
-    destruct (qltb 0 d); reflexivity. Qed.
+  - assert (E : qc_is0 (d * c) = qc_is0 d).
+    { destruct (qc_is0 d) eqn:Z.
+      - apply qc_is0_true in Z. subst d. apply qc_is0_true. ring.
+      - destruct (qc_is0 (d * c)) eqn:Z2; auto. apply qc_is0_true in Z2.
+        assert (d = 0). { destruct (Qcmult_integral _ _ Z2) as [H|H]; auto. exfalso. apply c_neq0, H. }
+        subst d. discriminate Z. }
+    rewrite E. destruct (qc_is0 d); reflexivity. Qed.
 Lemma div_scale a d : (a * c) / (d * c) = a / d.
 Proof. unfold Qcdiv. rewrite Qcinv_mult_distr.
   transitivity (a * / d * (c * / c)). ring. rewrite Qcmult_inv_r by apply c_neq0. ring. Qed.
@@ -457,10 +471,10 @@ Lemma common_grid_scale w1 w2 m :
   common_grid (map sc w1) (map sc w2) (scale_sampling c m)
   = match common_grid w1 w2 m with Ok g => Ok (map sc g) | Err e => Err e end.
 Proof. unfold common_grid. rewrite sampling_of_scale, !wmin_scale, !wmax_scale, qmin_scale, qmax_scale.
-  destruct (sampling_of w1 w2 m) as [dw|]; simpl; auto. f_equal.
+  destruct (sampling_of w1 w2 m) as [dw|]; simpl; auto.
   replace (qmax (wmax w1) (wmax w2) * c - qmin (wmin w1) (wmin w2) * c)
     with ((qmax (wmax w1) (wmax w2) - qmin (wmin w1) (wmin w2)) * c) by ring.
-  rewrite div_scale. apply linspace_scale. Qed.
+  rewrite div_scale. destruct (_ + 1 <? 0)%Z; auto. f_equal. apply linspace_scale. Qed.
 Lemma inrange_scale w x : inrange (map sc w) (x * c) = inrange w x.
 Proof. unfold inrange. rewrite wmin_scale, wmax_scale, !qleb_scale. reflexivity. Qed.
 Lemma chord_scale w0 w1 v0 v1 x : chord (w0 * c) (w1 * c) v0 v1 (x * c) = chord w0 w1 v0 v1 x.
@@ -541,7 +555,8 @@ Definition sampling_char (w1 w2 : list Qc) (m : sampling) (dw : Qc) : Prop :=
   | SNum d => dw = d /\ 0 < d
   end.
 
-Lemma spec_op_common_grid o s1 s2 m f r : wf s1 -> wf s2 -> spec_op o s1 s2 m f = Ok r ->
+Lemma spec_op_common_grid o s1 s2 m f r : wf s1 -> wf s2 ->
+  match m with SNum d => 0 < d | _ => True end -> spec_op o s1 s2 m f = Ok r ->
   let w1 := wave s1 in let w2 := wave (conv s2 (wu s1)) in
   let mn := qmin (wmin w1) (wmin w2) in let mx := qmax (wmax w1) (wmax w2) in
   exists dw num,
@@ -555,12 +570,12 @@ Lemma spec_op_common_grid o s1 s2 m f r : wf s1 -> wf s2 -> spec_op o s1 s2 m f 
     length (rwave r) = Z.to_nat (num + 1) /\
     (forall i, (i <= Z.to_nat num)%nat -> nth i (rwave r) 0 = mn + zq (Z.of_nat i) * ((mx - mn) / zq num)) /\
     wmin (rwave r) = mn /\ wmax (rwave r) = mx /\ ((0 < num)%Z -> (mx - mn) / zq num <= dw).
-Proof. intros (I1 & L1 & N1) W2 E. apply spec_op_inv in E. destruct E as (E & _ & _).
+Proof. intros (I1 & L1 & N1) W2 Hp E. apply spec_op_inv in E. destruct E as (E & _ & _).
   destruct (conv_wf s2 (wu s1) W2) as (I2 & L2 & N2).
   destruct (core_pointwise _ _ _ _ _ _ _ _ _ I1 I2 L1 L2 N1 N2 E) as (G & _ & _).
-  destruct (common_grid_spec _ _ _ _ I1 I2 G) as (dw & num & S & P & _ & Hn & C1 & C2 & Lg & Nth & G0 & G1 & St).
-  intros w1 w2 mn mx. exists dw, num. repeat split; auto. apply sampling_of_spec, S.
-  all: apply sampling_of_spec in S; destruct m; try tauto; destruct S; auto. Qed.
+  destruct (common_grid_spec _ _ _ _ I1 I2 Hp G) as (dw & num & S & P & _ & Hn & C1 & C2 & Lg & Nth & G0 & G1 & St).
+  intros w1 w2 mn mx. exists dw, num. split; [|repeat split; auto].
+  apply sampling_of_spec in S. destruct m; auto. destruct S; split; auto. Qed.
 
 Lemma spec_op_pointwise o s1 s2 m f r : wf s1 -> wf s2 -> spec_op o s1 s2 m f = Ok r ->
   let s2' := conv s2 (wu s1) in
@@ -636,12 +651,34 @@ Proof. repeat split. destruct o; simpl; congruence. Qed.
 
 (* ------------------------------------------------------------------ when does Spectrum (op) Spectrum raise *)
 Lemma spec_op_errors o s1 s2 m f :
+  let w1 := wave s1 in let w2 := wave (conv s2 (wu s1)) in
+  let mn := qmin (wmin w1) (wmin w2) in let mx := qmax (wmax w1) (wmax w2) in
+  match spec_op o s1 s2 m f with
+  | Ok _ => exists dw, sampling_of w1 w2 m = Ok dw /\ (-1 <= qceil ((mx - mn) / dw))%Z
+  | Err e => sampling_of w1 w2 m = Err e \/
+             (e = ValueError /\ exists dw, sampling_of w1 w2 m = Ok dw /\ (qceil ((mx - mn) / dw) < -1)%Z)
+  end.
+Proof. intros w1 w2 mn mx. unfold spec_op, core, common_grid. fold w1 w2 mn mx.
+  destruct (sampling_of w1 w2 m) as [dw|e]; simpl; auto.
+  destruct (qceil ((mx - mn) / dw) + 1 <? 0)%Z eqn:E; simpl.
+  - right. split; auto. exists dw. split; auto. lia.
+  - exists dw. split; auto. lia. Qed.
+(* with the documented positive sampling the count is never negative: the only refusal is an undefined sampling *)
+Lemma spec_op_errors_pos o s1 s2 m f : wf s1 -> wf s2 -> match m with SNum d => 0 < d | _ => True end ->
   match spec_op o s1 s2 m f with
   | Ok _ => exists dw, sampling_of (wave s1) (wave (conv s2 (wu s1))) m = Ok dw
   | Err e => sampling_of (wave s1) (wave (conv s2 (wu s1))) m = Err e
   end.
-Proof. unfold spec_op, core, common_grid.
-  destruct (sampling_of (wave s1) (wave (conv s2 (wu s1))) m) as [dw|e]; simpl; eauto. Qed.
+Proof. intros (I1 & _ & _) W2 Hp. destruct (conv_wf s2 (wu s1) W2) as (I2 & _ & _).
+  pose proof (spec_op_errors o s1 s2 m f) as H. cbv zeta in H.
+  destruct (spec_op o s1 s2 m f) as [r|e].
+  - destruct H as (dw & H & _). eauto.
+  - destruct H as [H|(_ & dw & S & N)]; auto. exfalso.
+    pose proof (sampling_of_pos _ _ _ _ I1 I2 Hp S) as Hd.
+    pose proof (union_range _ _ I1 I2) as Hr.
+    assert (0 <= qceil ((qmax (wmax (wave s1)) (wmax (wave (conv s2 (wu s1)))) - qmin (wmin (wave s1)) (wmin (wave (conv s2 (wu s1))))) / dw))%Z.
+    { apply qceil_nonneg, qdiv_nonneg; auto. qc2q; lra. }
+    lia. Qed.
 
 (* ------------------------------------------------------------------ Spectrum.sample *)
 Lemma sample_denotes s pts f u i : wf s -> (i < length pts)%nat ->
